@@ -101,6 +101,22 @@ def layout(g: dict[str, Any]) -> dict[str, tuple]:
     return MODELS[g.get('model', 'simple')]
 
 
+def stage_layout(g: dict[str, Any], p: int) -> dict[str, tuple]:
+    """The layers owned by pipeline stage p (consecutive blocks)."""
+    lay = layout(g)
+    P = g.get('P', 1)
+    if P == 1:
+        return lay
+    keys = list(lay)
+    per = len(keys) // P
+    return {k: lay[k] for k in keys[p * per:(p + 1) * per]}
+
+
+def coords(g: dict[str, Any], rank: int) -> tuple[int, int, int]:
+    D, M = g['D'], g['M']
+    return rank // (D * M), (rank % (D * M)) // M, rank % M
+
+
 def kind_of(key: str) -> str:
     return 'col' if key.startswith('col') else 'row'
 
@@ -167,7 +183,8 @@ class GptRank:
         g = cfg.gpt
         self.cfg, self.seed, self.rank = cfg, seed, rank
         self.D, self.M = g['D'], g['M']
-        self.d, self.m = rank // self.M, rank % self.M
+        self.P = g.get('P', 1)
+        self.p, self.d, self.m = coords(g, rank)
         self.groups = groups
         self.fp = full_params(seed, g)
         self.build_model()
@@ -183,10 +200,11 @@ class GptRank:
         mp = self.groups['mp']
         sp = {n: shard(n, t, self.m, self.M) for n, t in self.fp.items()}
         self.klayers: dict[str, torch.nn.Module] = {}
-        for key, (kind, nin, nout, name) in layout(self.cfg.gpt).items():
+        mine = stage_layout(self.cfg.gpt, self.p)
+        for key, (kind, nin, nout, name) in mine.items():
             cls = ColumnParallelLinear if kind == 'col' else RowParallelLinear
             self.klayers[key] = cls(sp[f'{key}.weight'], sp[f'{key}.bias'], mp)
-        topo = PipeModelDataParallelTopology(num_pp=1, num_mp=self.M,
+        topo = PipeModelDataParallelTopology(num_pp=self.P, num_mp=self.M,
                                              num_dp=self.D)
         if self.cfg.gpt.get('model', 'simple') == 'simple':
             self.col, self.row = self.klayers['col'], self.klayers['row']
@@ -194,7 +212,7 @@ class GptRank:
             self.model = PipelineModule(layers=seq, topology=topo)
         else:
             self.model = PipelineModule(topology=topo)
-            for key, (kind, nin, nout, name) in layout(self.cfg.gpt).items():
+            for key, (kind, nin, nout, name) in mine.items():
                 node = self.model
                 parts = name.split('.')
                 for seg in parts[:-1]:
@@ -240,7 +258,7 @@ class GptRank:
         one = kaisa.Config(**{**cfg.to_json(), 'model': 'mlp3', 'union': 1})
         x, y = kaisa.make_batch(one, self.seed, self.d, self.it, mb,
                                 torch.float32)
-        lay = list(layout(cfg.gpt).values())
+        lay = list(stage_layout(cfg.gpt, self.p).values())
         n_in, n_out = lay[0][1], lay[-1][2]
         if x.shape[1] != n_in:
             x = torch.cat([x] * (n_in // x.shape[1] + 1), 1)[:, :n_in]
@@ -301,18 +319,23 @@ class GptRank:
         return pid
 
 
-def make_groups(rank: int, D: int, M: int) -> dict[str, Any]:
-    """DP / MP groups created by all ranks in the same order (driver)."""
+def make_groups(rank: int, D: int, M: int, P: int = 1) -> dict[str, Any]:
+    """DP / MP groups of every pipeline stage, created by all ranks in the
+    same order (driver)."""
     out: dict[str, Any] = {}
     with simdist.owner('driver'):
-        for d in range(D):
-            gp = dist.new_group([d * M + m for m in range(M)])
-            if rank // M == d:
-                out['mp'] = gp
-        for m in range(M):
-            gp = dist.new_group([d * M + m for d in range(D)])
-            if rank % M == m:
-                out['dp'] = gp
+        for p in range(P):
+            b = p * D * M
+            for d in range(D):
+                rs = [b + d * M + m for m in range(M)]
+                gp = dist.new_group(rs)
+                if rank in rs:
+                    out['mp'] = gp
+            for m in range(M):
+                rs = [b + d * M + m for d in range(D)]
+                gp = dist.new_group(rs)
+                if rank in rs:
+                    out['dp'] = gp
     return out
 
 
@@ -320,14 +343,14 @@ def execute(cfg: kaisa.Config, hist: list[dict[str, Any]], seed: int,
             policy: simdist.Policy | None = None) -> dict[str, Any]:
     """All ranks run the history; returns per-rank records + captures."""
     g = cfg.gpt
-    D, M = g['D'], g['M']
-    W = D * M
+    D, M, P = g['D'], g['M'], g.get('P', 1)
+    W = P * D * M
     caps: dict[tuple, torch.Tensor] = {}
     recs: dict[int, list[dict[str, Any]]] = {r: [] for r in range(W)}
 
     def body(r: int) -> None:
         simdist.set_ctx({'op': 'construct', 'n': -1})
-        groups = make_groups(r, D, M)
+        groups = make_groups(r, D, M, P)
         gr = GptRank(cfg, seed, r, groups)
         pid = 0
         for i, rec in enumerate(hist):
@@ -413,17 +436,26 @@ def execute(cfg: kaisa.Config, hist: list[dict[str, Any]], seed: int,
     return {'recs': recs, 'caps': caps, 'world': world, 'errors': errs}
 
 
-def build_interp(cfg: kaisa.Config, seed: int, caps: dict) -> Interp:
+def build_interp(cfg: kaisa.Config, seed: int, caps: dict,
+                 stage: int | None = None) -> Interp:
+    """stage: interpret only the layers of that pipeline stage (every stage
+    is an independent K-FAC instance as far as values are concerned)."""
     g = cfg.gpt
     D, M = g['D'], g['M']
     fp = full_params(seed, g)
     icfg = kaisa.Config(**{**cfg.to_json(), 'method': 'eigen',
                            'prediv': False})
-    interp = Interp(icfg, make_full_layers(fp, g))
+    allnames = names_of(g)
+    if stage is not None:
+        allnames = {k: v for k, v in allnames.items()
+                    if k in stage_layout(g, stage)}
+    full_layers = make_full_layers(fp, g)
+    interp = Interp(icfg, {n: m for n, m in full_layers.items()
+                           if n in allnames.values()})
     pids = sorted({k[0] for k in caps})
     for pid in pids:
         ent: dict[str, dict[str, list]] = {}
-        for key, lname in names_of(g).items():
+        for key, lname in allnames.items():
             xs, gs = [], []
             for d in range(D):
                 if (pid, key, 'x', d, 0) not in caps:
@@ -446,8 +478,8 @@ def build_interp(cfg: kaisa.Config, seed: int, caps: dict) -> Interp:
 def compare(cfg: kaisa.Config, hist: list[dict[str, Any]],
             ex: dict[str, Any], seed: int) -> dict[str, Any]:
     g = cfg.gpt
-    D, M = g['D'], g['M']
-    W = D * M
+    D, M, P = g['D'], g['M'], g.get('P', 1)
+    W = P * D * M
     mism: list[dict[str, Any]] = []
     stats = {'steps': 0, 'max_grad_err': 0.0, 'max_factor_err': 0.0,
              'nu_active': 0, 'saves': 0, 'loads': 0}
@@ -472,19 +504,23 @@ def compare(cfg: kaisa.Config, hist: list[dict[str, Any]],
     if any(len(ex['recs'][r]) < len(hist) for r in range(W)):
         add('raise', 0, 'some rank did not finish')
         return {'mismatches': mism, 'stats': stats}
-    interp = build_interp(cfg, seed, ex['caps'])
-    names = list(names_of(g).items())
     NAMES_ = names_of(g)
-    for i, rec in enumerate(hist):
+    for stage in range(P):
+      base = stage * D * M
+      interp = build_interp(cfg, seed, ex['caps'], stage if P > 1 else None)
+      names = [(k, v) for k, v in names_of(g).items()
+               if k in stage_layout(g, stage)]
+      for i, rec in enumerate(hist):
         act, x, obs = rec['act'], rec['x'], rec['obs']
-        outs = [ex['recs'][r][i] for r in range(W)]
+        allouts = [ex['recs'][r][i] for r in range(W)]
+        outs = allouts[base:base + D * M]
         if any(o['steps'] != obs['steps'] for o in outs):
             add('steps', i, f'steps {[o["steps"] for o in outs]} spec {obs["steps"]}')
         # factors on the inverse worker = factors of the unsharded layer
         for key, lname in names:
             invw = outs[0]['facts'][lname]['inv']
             for kind, fk in (('A', 'aFac'), ('G', 'gFac')):
-                got = outs[invw]['facts'][lname][kind]
+                got = allouts[invw]['facts'][lname][kind]
                 want = interp.factor(obs[fk], lname, kind)
                 if isinstance(got, str):
                     continue
@@ -499,7 +535,7 @@ def compare(cfg: kaisa.Config, hist: list[dict[str, Any]],
                     add('factor', i, f'{lname}.{kind} on inverse worker {invw}: '
                                      f'rel err {e:.2e} vs unsharded factor')
         if act == 'step':
-            stats['steps'] += 1
+            stats['steps'] += int(stage == 0)
             # assemble full gradients per data-parallel replica
             fulls, raws = [], []
             for d in range(D):
@@ -538,10 +574,16 @@ def compare(cfg: kaisa.Config, hist: list[dict[str, Any]],
                     add('grad', i, f'{k}: assembled shards differ from the '
                                    f'unsharded layer\'s gradient: rel {e:.3e} '
                                    f'(nu={info["nu"]:.4g})')
-        elif act == 'save' and hist[i]['arg']:
+        elif act == 'save' and hist[i]['arg'] and stage == 0:
             stats['saves'] += 1
+            # every rank of EVERY stage holds the factors of all layers of
+            # the whole model, as held by each layer's inverse worker
+            owner = {}
+            for r2 in range(W):
+                for ln2, f2 in allouts[r2]['facts'].items():
+                    owner.setdefault(ln2, f2['inv'])
             for r in range(W):
-                o = outs[r]
+                o = allouts[r]
                 if cfg.gpt.get('ckpt_dir'):
                     continue
                 if o['sd_layers'] != sorted(NAMES_.values()):
@@ -549,19 +591,19 @@ def compare(cfg: kaisa.Config, hist: list[dict[str, Any]],
                                    f'{o["sd_layers"]}')
                     continue
                 for lname in NAMES_.values():
-                    invw = o['facts'][lname]['inv']
+                    invw = owner[lname]
                     for kind in ('A', 'G'):
-                        held = outs[invw]['facts'][lname][kind]
+                        held = allouts[invw]['facts'][lname][kind]
                         got = o['sd'][lname][kind]
                         if isinstance(held, str) or held is None or got is None \
                                 or not torch.equal(got, held):
                             add('save', i, f'rank {r}: saved {lname}.{kind} is '
                                 f'not the factor held by inverse worker {invw}')
         elif act == 'load':
-            stats['loads'] += 1
-            for lname in NAMES_.values():
-                for r in range(W):
-                    f = outs[r]['facts'][lname]
+            stats['loads'] += int(stage == 0)
+            for lname in [v for _, v in names]:
+                for r in range(base, base + D * M):
+                    f = allouts[r]['facts'][lname]
                     should = x['hasInv'] and f['inv'] == r
                     if should and not f['hold']:
                         add('load', i, f'{lname}: no second-order data on '
@@ -580,13 +622,13 @@ def replay(cfg: kaisa.Config, hist: list[dict[str, Any]], seed: int,
     out['events'] = len(ex['world'].events)
     out['programs'] = ex['world'].programs()
     out['groups'] = dict(ex['world'].groups)
-    W = cfg.gpt['D'] * cfg.gpt['M']
+    W = cfg.gpt['D'] * cfg.gpt['M'] * cfg.gpt.get('P', 1)
     out['step_grads'] = {r: [o['grads'] for o in ex['recs'][r] if 'grads' in o]
                          for r in range(W)}
     # case record for spec/GptDist.tla (only for executions that completed)
     out['kcase'] = None
-    if not any(ex['errors']) and all(len(ex['recs'][r]) == len(hist)
-                                     for r in range(W)):
+    if cfg.gpt.get('P', 1) == 1 and not any(ex['errors']) and all(
+            len(ex['recs'][r]) == len(hist) for r in range(W)):
         from harness import gptdist
         try:
             out['kcase'] = gptdist.build_case(cfg, hist, ex)
